@@ -186,7 +186,13 @@ impl Man {
     }
 
     fn _render_title(&self, roff: &mut Roff) {
-        roff.control("TH", self.title_args());
+        // Arguments of a request are written verbatim: keep them on the request's line
+        let args = self
+            .title_args()
+            .into_iter()
+            .map(|arg| arg.replace('\n', " "))
+            .collect::<Vec<_>>();
+        roff.control("TH", args.iter().map(|arg| arg.as_str()));
     }
 
     // Turn metadata into arguments for a .TH macro.
@@ -274,7 +280,7 @@ impl Man {
                 .into_iter()
                 .partition(|&a| a.get_help_heading() == Some(heading));
 
-            roff.control("SH", [heading.to_uppercase().as_str()]);
+            roff.control("SH", [heading.to_uppercase().replace('\n', " ").as_str()]);
             render::options(roff, &args);
         }
     }
@@ -287,8 +293,8 @@ impl Man {
     }
 
     fn _render_subcommands_section(&self, roff: &mut Roff) {
-        let heading = subcommand_heading(&self.cmd);
-        roff.control("SH", [heading]);
+        let heading = subcommand_heading(&self.cmd).replace('\n', " ");
+        roff.control("SH", [heading.as_str()]);
         render::subcommands(roff, &self.cmd, &self.section);
     }
 
